@@ -411,7 +411,6 @@ func rulePolicyRuleIndexAlignment(c *Ctx, rule string) {
 	}
 }
 
-
 // isCalleeOf: h is called (same package, depth <= 2) from g
 func isCalleeOf(g, h *ssa.Function) bool {
 	if g == nil {
